@@ -78,7 +78,9 @@ def h_run_content(ctx, cfg):
       src = {"list": lambda: list(audio), "tuple": lambda: tuple(audio), "gen": lambda: (x for x in audio),
              "iter": lambda: iter(list(audio)), "stream": lambda: Stream(list(audio))}[kind]()
       man = _Manager(log)
-      th = AudioThread(man, src, chunk_size=cs, dfmt=dfmt, channels=channels)
+      # the deprecated keyword `nchannels` still has to mean the same thing as `channels`
+      chkw = {"nchannels": channels} if cfg.get("legacy_kw") else {"channels": channels}
+      th = AudioThread(man, src, chunk_size=cs, dfmt=dfmt, **chkw)
       man._threads.append(th)
       th.run()
     finally:
@@ -119,4 +121,6 @@ def tasks(tier, seed):
           if not big and strat == "array" and kind not in ("list", "gen"): continue
           T.append(("h_run_content", {"dfmt": dfmt, "kind": kind, "channels": channels, "strategy": strat,
                                       "L": 9 if big else 5, "S": 4 if big else 3}))
+  for channels in (1, 2):
+    T.append(("h_run_content", {"dfmt": "f", "kind": "list", "channels": channels, "strategy": "struct", "L": 5, "S": 2, "legacy_kw": True}))
   return T
